@@ -305,6 +305,46 @@ func c08(c *Ctx) {
 			}
 		})
 		c.check(okCmp, r, fnName(f)+":verdict-compares-evaluated-root", c.pos(f.Pos()), "result compares the evaluated root with the claimed root", "the verifier's verdict no longer compares the evaluated root with the claimed one")
+		// no verdict other than "false" is given without evaluating the proof, except for an empty proof: a shortcut that
+		// compares the claimed roots only accepts any altered proof whenever the roots are equal
+		nret := 0
+		allInstrs(f, false, func(in ssa.Instruction) {
+			rt, ok := in.(*ssa.Return)
+			if !ok || len(rt.Results) != 1 {
+				return
+			}
+			res := unspill(rt.Results[0], rt)
+			if k, isConst := res.(*ssa.Const); isConst && desc(k) == "const:false" {
+				return
+			}
+			nret++
+			evaluated := dependsOn(res, func(x ssa.Value) bool {
+				cl, ok := x.(*ssa.Call)
+				return ok && calleeName(&cl.Call) == v.eval
+			})
+			emptyProof := false
+			for _, b := range f.Blocks {
+				if len(b.Instrs) == 0 {
+					continue
+				}
+				ifi, ok := b.Instrs[len(b.Instrs)-1].(*ssa.If)
+				if !ok {
+					continue
+				}
+				for succ := 0; succ < 2; succ++ {
+					if !edgeDominates(b, succ, rt.Block()) {
+						continue
+					}
+					a, pol := normCond(ifi.Cond)
+					isLenZero := strings.Contains(a, "len(param:") && strings.Contains(a, "const:0") && strings.Contains(a, "==")
+					if isLenZero && ((succ == 0) == pol) {
+						emptyProof = true
+					}
+				}
+			}
+			c.check(evaluated || emptyProof, r, fmt.Sprintf("%s:verdict#%d:proof-evaluated", fnName(f), nret), c.pos(rt.Pos()), "the verdict depends on the evaluated proof (or the proof is empty)",
+				"a verdict that can be `true` is given without evaluating the proof and without the proof being empty ("+desc(res)+"): any altered, extended or foreign proof is accepted on that path")
+		})
 		for _, p := range f.Params {
 			c.check(paramMatters(f, p, 0), "C08.2/parameter-influence", fnName(f)+":param:"+p.Name(), c.pos(f.Pos()), "parameter influences the verdict",
 				"parameter "+p.Name()+" influences the verdict only through a comparison with zero: the same proof verifies for any other value of it")
@@ -514,6 +554,29 @@ func c08(c *Ctx) {
 		}
 		// leaf position: n = size()+1, and the leaf digest is what is returned
 		c.check(len(sites(f, callTo(ahT+"size"))) > 0, r, fnName(f)+":position-from-size", c.pos(f.Pos()), "n = size()+1", "Append no longer derives the position from size()")
+	}
+
+	// the commit log of the tree is rewritten from latestSyncedNode at every sync: the watermark advances by exactly the
+	// number of entries that sync just appended (cLogBufCount). Derived from anything else (the logical size, which Append
+	// advances only after its threshold sync) the next sync starts one slot off and shifts every later leaf.
+	if f := c.mustFn("C08.3/synced-watermark-counts-what-was-written", ahT+"sync"); f != nil {
+		rw := "C08.3/synced-watermark-counts-what-was-written"
+		sts := sites(f, storeTo("AHtree.latestSyncedNode"))
+		if len(sts) == 0 {
+			c.undecided(rw, fnName(f), "sync no longer stores latestSyncedNode")
+		}
+		for i, in := range sts {
+			v := in.(*ssa.Store).Val
+			dep := dependsOn(v, func(x ssa.Value) bool {
+				u, ok := x.(*ssa.UnOp)
+				if !ok || u.Op != token.MUL {
+					return false
+				}
+				fl, _ := fieldOf(u.X)
+				return fl == "AHtree.cLogBufCount"
+			})
+			c.check(dep, rw, fmt.Sprintf("%s:latestSyncedNode#%d", fnName(f), i), c.pos(in.Pos()), "advances by the number of commit-log entries appended", "the synced watermark is set to "+desc(v)+", which does not count the entries this sync appended to the commit log: the next sync rewinds the commit log to a wrong slot")
+		}
 	}
 
 	// ---- C08.4 one tree state per proof ---------------------------------------------------------------------------
